@@ -13,5 +13,8 @@ for n in $names; do
   viol=$(echo "$out" | grep -c '^VIOLATION')
   echo "$n: exit=$rc violations=$viol $(echo "$out" | grep '^VIOLATION' | sed 's/.*obligation=//' | cut -c1-90 | head -3 | tr '\n' ';')"
   echo "$out" | grep -E '^VIOLATION|^rainvc' > "seeded/$n/check_output.txt"
+  touched="$touched $id"
 done
+# evidence must describe the unchanged tree: regenerate it for every property that was run
+for id in $(echo $touched | tr ' ' '\n' | sort -u); do ./check "$id" quick > /dev/null; done
 # evidence files were rewritten by runs on changed trees: regenerate them on the unchanged tree
